@@ -1,9 +1,11 @@
 #!/usr/bin/env python3
-"""Generates order/big_mixed.ll: many entries in every translator index, densely
+"""Generates order/big_mixed.ll (no argument) or ../corpus-large/huge.ll (argument "large"): many entries in every translator index, densely
 cross-referenced. Deterministic; the output is committed."""
 import random
 r = random.Random(20260924)
-N_T, N_G, N_C, N_A, N_NM, N_MD, N_F = 40, 40, 20, 20, 20, 60, 12
+import sys
+BIG = len(sys.argv) > 1 and sys.argv[1] == "large"
+N_T, N_G, N_C, N_A, N_NM, N_MD, N_F = (40, 40, 20, 20, 20, 60, 12) if not BIG else (300, 600, 60, 80, 120, 900, 260)
 out = []
 w = out.append
 names_t = ["T%d" % i for i in range(N_T)]
@@ -101,4 +103,4 @@ for i in ids:
             fields.append("null")
     d = "distinct " if i % 4 == 0 else ""
     w("!%d = %s!{%s}" % (i, d, ", ".join(fields)))
-open("order/big_mixed.ll", "w").write("\n".join(out) + "\n")
+open("../corpus-large/huge.ll" if BIG else "order/big_mixed.ll", "w").write("\n".join(out) + "\n")
